@@ -56,3 +56,38 @@ def sentinel_obligation(ctx, modnames, what):
     if not out:
         out.append(ctx.ok("+".join(modnames) + ":*", "every find() result is compared with -1 or guarded by a membership test (%d calls)" % total, key="find-sentinel"))
     return out
+
+
+# ----------------------------------------------------------------------------------------------------------------------------------
+# STRIP-SET: `s.rstrip("/0/*")` removes every trailing character that is in the *set* {/, 0, *}, not the suffix "/0/*": it keeps eating into
+# the text in front (an xpub that ends in a digit of the account index loses it).  Flagged: strip / lstrip / rstrip whose argument is an
+# f-string, or a constant with two or more different non-blank characters.  The reference tree strips single characters only.
+
+def strip_set_sites(mod):
+    hits, n = [], 0
+    for qn, fn in mod.functions.items():
+        for c in ast.walk(fn):
+            if isinstance(c, ast.Call) and isinstance(c.func, ast.Attribute) and c.func.attr in ("strip", "lstrip", "rstrip") and len(c.args) == 1:
+                n += 1
+                a = c.args[0]
+                if isinstance(a, ast.JoinedStr) and (len(a.values) > 1 or any(isinstance(v, ast.FormattedValue) for v in a.values)):
+                    hits.append((qn, c, "an f-string"))
+                elif isinstance(a, ast.Constant) and isinstance(a.value, (str, bytes)):
+                    chars = set(a.value if isinstance(a.value, str) else a.value.decode("latin-1"))
+                    if len({ch for ch in chars if not ch.isspace()}) >= 2 and len(a.value) == len(chars):
+                        hits.append((qn, c, "the %d-character text %r" % (len(a.value), a.value)))
+    return n, hits
+
+
+def strip_set_obligation(ctx, modnames, what):
+    out, total = [], 0
+    for mn in modnames:
+        mod = ctx.repo.module(mn)
+        n, hits = strip_set_sites(mod)
+        total += n
+        for qn, c, desc in hits:
+            out.append(ctx.bad("%s:%s" % (mn, qn), "`%s` strips with %s: strip() removes any run of those *characters*, not that suffix / prefix, so it also eats characters of the "
+                                                   "text next to it that happen to be in the set (%s)" % (ast.unparse(c)[:70], desc, what), c, mod, key="strip-set:" + qn))
+    if not out:
+        out.append(ctx.ok("+".join(modnames) + ":*", "strip() is only used with single characters or blanks (%d calls with an argument)" % total, key="strip-set"))
+    return out
